@@ -113,12 +113,13 @@ def handler : Handler := fun op j =>
     let n ← fNat? j "n"
     let x ← getCV? (← field? j "x") n
     let f ← getFn? n (← field? j "f")
-    some (ok (jObj [("eval", jF (f.eval x)), ("jax", jCV (f.jaxGrad x)), ("grad", jCV (f.grad x))]))
-  | "huber_safe" => do
+    some (ok (jObj [("eval", jF (f.eval x)), ("jax", jCV (f.jaxGrad x)), ("grad", jCV (f.grad x)),
+                    ("grad_real_arg", jCV (f.gradRealArg x))]))
+  | "huber_old" => do
     let n ← fNat? j "n"
     let x ← getCV? (← field? j "x") n
     let δ ← fFloat? j "delta"
-    some (ok (jCV (scicoGrad (huberNonsepSafeJaxGrad δ x))))
+    some (ok (jCV (scicoGrad (huberNonsepOldJaxGrad δ x))))
   | "div_ok" => do
     let n ← fNat? j "n"
     let f ← getFn? n (← field? j "f")
